@@ -87,3 +87,44 @@ theorem canon_anonymize_canon (a : Bytes) (h : a.length = 4 ∨ a.length = 16) :
   masked_canon_anonymize (canon a) (canon_length a h)
 
 end AGH.C08
+
+namespace AGH.C08
+open AGH AGH.Bytes
+
+/-- How many leading bytes `AnonymizeIP` keeps: 2 of an IPv4 address (16 bits),
+14 of an IPv4-mapped one (the prefix and the same 16 bits), 6 of an IPv6
+address (48 bits). -/
+def keepBytes (a : Bytes) : Nat := if a.length = 4 then 2 else if is4in6 a then 14 else 6
+
+theorem anonymize_eq_take (a : Bytes) (h : a.length = 4 ∨ a.length = 16) :
+    anonymize a = a.take (keepBytes a) ++ zeros (a.length - keepBytes a) := by
+  unfold anonymize keepBytes
+  rcases h with h | h
+  · simp [h, zeros]
+  · by_cases h6 : is4in6 a = true
+    · simp [h, h6, zeros]
+    · simp [h, h6, zeros]
+
+/-- Bit-exact description of the mask: every byte before `keepBytes` is kept,
+every byte from there on is zero. -/
+theorem anonymize_bytes (a : Bytes) (h : a.length = 4 ∨ a.length = 16) (i : Nat) :
+    (i < keepBytes a → (anonymize a)[i]? = a[i]?) ∧
+    (keepBytes a ≤ i → i < a.length → (anonymize a)[i]? = some 0) := by
+  have hk : keepBytes a ≤ a.length := by
+    unfold keepBytes
+    rcases h with h | h
+    · simp [h]
+    · by_cases h6 : is4in6 a = true <;> simp [h, h6]
+  rw [anonymize_eq_take a h]
+  have hl : (a.take (keepBytes a)).length = keepBytes a := by
+    simp [List.length_take]; omega
+  constructor
+  · intro hi
+    rw [List.getElem?_append_left (by omega)]
+    simp [List.getElem?_take, hi]
+  · intro hi hlt
+    rw [List.getElem?_append_right (by omega), hl]
+    simp [zeros, List.getElem?_replicate]
+    omega
+
+end AGH.C08
